@@ -51,14 +51,14 @@ def time_limit(seconds):
     except ValueError:
         yield
         return
-    remaining = signal.alarm(seconds)
+    remaining, _ = signal.setitimer(signal.ITIMER_REAL, seconds)  # (float seconds left on an outer timer, exactly)
     try:
         yield
     finally:
-        signal.alarm(0)
+        signal.setitimer(signal.ITIMER_REAL, 0)
         signal.signal(signal.SIGALRM, old)
         if remaining:
-            signal.alarm(max(1, int(remaining - (time.time() - t0))))
+            signal.setitimer(signal.ITIMER_REAL, max(0.05, remaining - (time.time() - t0)))
 
 
 class Ctx:
